@@ -2,7 +2,7 @@
 C19 (Lark -> character/byte grammars).  No genlm import; neutral forms only (vlib.spec G / A, strs, Fractions).
 
 C17  automata_corpus(), random_byte_automaton(), ctor_specs(), grammar_relabelings(), merge_groups()
-C18  a small regex AST (Lit, Cls, Esc, Dot, Cat, Alt, Rep, CI) with render() -> (pattern text, pattern text for Python re),
+C18  a small regex AST (Lit, Cls, Esc, Dot, Cat, Alt, Rep, CI, Raw) with render() -> pattern text / pattern text for Python re,
      pattern_corpus(), random_pattern(), CHARSETS, selfcheck of the dialect alignment
 C19  lark_corpus(), random_lark_grammar()
 """
@@ -420,6 +420,7 @@ def pattern_corpus():
     c["neg_cls_then_lit"] = Cat(C(["a"], neg=True), L("b"))
     c["neg_or_pos"] = Alt(C(["a"], neg=True), L("a"))
     c["two_neg"] = Cat(C(["a"], neg=True), C(["b", " "], neg=True))
+    c["neg_whole_charset"] = Cat(L("a"), C(["a", "b"], neg=True))          # over {a,b}: the state after 'a' has no continuation
     c["dot"] = Dot()
     c["dot_star_a"] = Cat(R(Dot(), 0, None), L("a"))
     c["dot_or_nl"] = R(Alt(Dot(), L("\n")), 0, None)
